@@ -69,10 +69,12 @@ MapLike(tag, K, V, cx, j) ==
   IF ~IsOk(it) THEN it ELSE Wrap(tag, UnpackPairs(K, V, cx, it[2]))
 
 UnpackUnion(Ms, cx, j) ==
-  LET p1(i) == IF ScalarT(Ms[i]) THEN (IF ExactIs(Ms[i], j) THEN Ok(j) ELSE Err("type")) ELSE Unpack(Ms[i], cx, j)
+  \* a scalar member that a customisation level converts is an ordinary (non pass-through) member: it is attempted at its position
+  LET Plain(i) == ScalarT(Ms[i]) /\ Winner(Ms[i], cx, "deser") = <<"#builtin">>
+      p1(i) == IF Plain(i) THEN (IF ExactIs(Ms[i], j) THEN Ok(j) ELSE Err("type")) ELSE Unpack(Ms[i], cx, j)
       first1 == { i \in DOMAIN Ms : IsOk(p1(i)) \/ IsUnknown(p1(i)) }
       \* coercions of the scalar members, in declaration order; a null member matches only null
-      p2(i) == IF ScalarT(Ms[i]) /\ Ms[i][1] # "none" THEN Unpack(Ms[i], cx, j) ELSE Err("type")
+      p2(i) == IF Plain(i) /\ Ms[i][1] # "none" THEN Unpack(Ms[i], cx, j) ELSE Err("type")
       first2 == { i \in DOMAIN Ms : IsOk(p2(i)) \/ IsUnknown(p2(i)) }
       min(Z) == CHOOSE i \in Z : \A k \in Z : i <= k
   IN  IF first1 # {} THEN p1(min(first1))
@@ -148,6 +150,8 @@ Unpack(T, cx, j) ==
   LET w == Winner(T, cx, "deser") IN
   IF w = <<"#builtin">> THEN UnpackB(T, cx, j)
   ELSE IF w[1] = "pass_through" THEN Ok(j)
+  ELSE IF w[1] = "shift" THEN (IF j[1] = "int" THEN Ok(I(j[2] - w[4])) ELSE Err("strategy"))     \* the strategy accepts exact ints only
+  ELSE IF j = <<"none">> THEN Err("strategy")      \* the marker strategies of the harness refuse null (Optional / the None member handle it)
   ELSE Ok(S("D" \o w[2]))
 
 UnpackB(T, cx, j) ==
